@@ -405,7 +405,7 @@ def tasks(tier, seed):
     stride = 6 if q else 12
     stv_opts = F.stv_option_slice(q)
     for i, o in enumerate(stv_opts):
-        fams = [fams3[i % len(fams3)]] if q else [fams3[(i + j) % len(fams3)] for j in range(3)]
+        fams = [fams3[i % len(fams3)]] if q else [fams3[(i + j) % len(fams3)] for j in range(2)]
         W = 2 if o.get("transfer") == "random" else None
         for sup in supports_of(fams, sizes=(1, 2, 3, len(fams[0])) if q else None):
             for m in ((1, 2, 3) if (not q or o.get("simultaneous") or i % 2 == 0) else (1, 2)):
@@ -436,10 +436,10 @@ def tasks(tier, seed):
         out.append(_t("RandomDictator", 2, {}, sup, ncands, weight=len(sup), xval_stride=stride))
     if not q:
         # four candidates (m up to 4): over-election / default-election corners need them
-        for o in (stv_opts[0], stv_opts[1], stv_opts[4], stv_opts[5]):
+        for o in (stv_opts[0], stv_opts[1], stv_opts[4]):
             W = 2 if o.get("transfer") == "random" else None
             for fam in F.base4(False):
-                for sup in supports_of([fam], sizes=(2, 3, 4)):
+                for sup in supports_of([fam], sizes=(2, 3)):
                     for m in (2, 3, 4):
                         out.append(_t("STV", m, o, sup, C.K4, nmax=8, W=W, weight=4 * len(sup), xval_stride=stride, split=3 if len(sup) >= 3 else 0))
         for fam in F.base4(False)[:2]:
